@@ -143,6 +143,11 @@ pub open spec fn completion_frame(pre: ProtocolState, post: ProtocolState) -> bo
     &&& post.operation_ack_timeouts == pre.operation_ack_timeouts
 }
 
+// completing (or failing) a user DISCONNECT tears the connection down -- unless there is no connection any more (C12:
+// a stop request must lead to Stopped also "while a user-requested DISCONNECT is still waiting to be written")
+pub open spec fn disconnect_completion_err(pre: ProtocolStateType, op: ClientOperation) -> bool {
+    *op.packet is Disconnect && pre != ProtocolStateType::Disconnected
+}
 pub open spec fn disconnect_completion_state(pre: ProtocolStateType, op: ClientOperation) -> ProtocolStateType {
     if *op.packet is Disconnect && pre == ProtocolStateType::PendingDisconnect { ProtocolStateType::Halted } else { pre }
 }
@@ -176,7 +181,7 @@ impl ProtocolState {
     ensures
         *final(self) == (ProtocolState { state: final(self).state, ..*old(self) }),
         final(self).state == disconnect_completion_state(old(self).state, *operation),
-        r is Err <==> *operation.packet is Disconnect,
+        r is Err <==> disconnect_completion_err(old(self).state, *operation),
         r matches Err(e) ==> e.kind() == GErrKind::UserInitiatedDisconnect,
 //@end
 
@@ -233,7 +238,7 @@ impl ProtocolState {
             &&& removed_exactly(*old(self), *final(self), id)
             &&& final(self).state == disconnect_completion_state(old(self).state, op)
             &&& final(self).next_ping_timepoint == ping_extension_result(*old(self), op)
-            &&& (r is Err <==> *op.packet is Disconnect)
+            &&& (r is Err <==> disconnect_completion_err(old(self).state, op))
         },
         old(self).cur_ok() && old(self).current_operation != Some(id) ==> final(self).cur_ok(),
 //@@at after "if operation_option.is_none() {"
@@ -255,7 +260,7 @@ impl ProtocolState {
             let op = old(self).operations@[id];
             &&& removed_exactly(*old(self), *final(self), id)
             &&& final(self).state == disconnect_completion_state(old(self).state, op)
-            &&& (r is Err <==> *op.packet is Disconnect)
+            &&& (r is Err <==> disconnect_completion_err(old(self).state, op))
         },
         old(self).cur_ok() && old(self).current_operation != Some(id) ==> final(self).cur_ok(),
 //@@at after "if operation_option.is_none() {"
@@ -1317,6 +1322,8 @@ impl ProtocolState {
 //@fn gneiss-mqtt/src/protocol.rs ProtocolState::apply_connection_closed_to_current_operation props=C15,C04,C10,C11
     requires old(self).wf(),
     ensures final(self).wf(), r is Ok ==> final(self).current_operation is None,
+        // during connection-closed handling (state already Disconnected) this never fails, whatever the half-written packet was
+        old(self).state == ProtocolStateType::Disconnected ==> r is Ok,
         ({
             let pre = *old(self);
             let post = *final(self);
